@@ -286,8 +286,10 @@ structure Cell where
   cp : Int := 0
 deriving DecidableEq, Repr, Inhabited
 
-/-- One line of cells, `cells[line]`. -/
-abbrev Row := Int → Cell
+/-- One line of cells, `cells[line]`, indexed by an `Int` column.  (A structure rather than a bare function so
+    that the compiled model evaluates the `let`s of a row transformer once, not at every lookup.) -/
+structure Row where
+  get : Int → Cell
 
 /-- `RBStack`.  In a `pen_only` frame only `pen` is initialised (the other fields are never read). -/
 structure Frame where
@@ -304,7 +306,7 @@ deriving DecidableEq, Repr, Inhabited
 structure RB where
   lines : Int
   cols : Int
-  cells : Int → Int → Cell
+  cells : Int → Row
   vcSet : Bool
   vcLine : Int
   vcCol : Int
@@ -324,8 +326,11 @@ def RB.inGrid (rb : RB) (line col : Int) : Prop := 0 ≤ line ∧ line < rb.line
 
 instance (rb : RB) (l c : Int) : Decidable (rb.inGrid l c) := by unfold RB.inGrid; exact inferInstance
 
+/-- `cells[line][col]`. -/
+@[inline] def RB.cell (rb : RB) (line col : Int) : Cell := (rb.cells line).get col
+
 /-- Assignment to one element of a row. -/
-def rowSet (row : Row) (i : Int) (v : Cell) : Row := fun k => if k = i then v else row k
+def rowSet (row : Row) (i : Int) (v : Cell) : Row := ⟨fun k => if k = i then v else row.get k⟩
 
 /-- Replace `cells[line]`. -/
 def RB.setRow (rb : RB) (line : Int) (row : Row) : RB :=
@@ -334,7 +339,7 @@ def RB.setRow (rb : RB) (line : Int) (row : Row) : RB :=
 /-- `tickit_renderbuffer_new(lines, cols)`; `g1`, `g2` are the indeterminate contents of `vc_line`, `vc_col`. -/
 def RB.new (lines cols g1 g2 : Int) : RB :=
   { lines := lines, cols := cols
-    cells := fun _ c => if c = 0 then { state := .skip, maskdepth := -1, cols := cols } else { state := .cont, maskdepth := -1, cols := 0 }
+    cells := fun _ => ⟨fun c => if c = 0 then { state := .skip, maskdepth := -1, cols := cols } else { state := .cont, maskdepth := -1, cols := 0 }⟩
     vcSet := false, vcLine := g1, vcCol := g2
     xlLine := 0, xlCol := 0
     clip := ⟨0, 0, lines, cols⟩
@@ -372,45 +377,46 @@ def contCell (c : Cell) (startcol : Int) : Cell :=
 
 /-- First block of `make_span`: "if the following cell is a CONT, it needs to become a new start". -/
 def splitAfter (ncols : Int) (row : Row) (end_ : Int) : Row :=
-  if end_ < ncols ∧ (row end_).state = .cont then
-    let spanstart := (row end_).cols
-    let spancell := row spanstart
+  if end_ < ncols ∧ (row.get end_).state = .cont then
+    let spanstart := (row.get end_).cols
+    let spancell := row.get spanstart
     let spanend := spanstart + spancell.cols
     let afterlen := spanend - end_
     let endcell : Cell :=
       match spancell.state with
-      | .skip => { row end_ with state := .skip, cols := afterlen }
-      | .text => { row end_ with state := .text, cols := afterlen, pen := spancell.pen,
-                                 text := spancell.text, offs := spancell.offs + end_ - spanstart }
-      | .erase => { row end_ with state := .erase, cols := afterlen, pen := spancell.pen }
-      | _ => row end_
-    fun k =>
+      | .skip => { row.get end_ with state := .skip, cols := afterlen }
+      | .text => { row.get end_ with state := .text, cols := afterlen, pen := spancell.pen,
+                                     text := spancell.text, offs := spancell.offs + end_ - spanstart }
+      | .erase => { row.get end_ with state := .erase, cols := afterlen, pen := spancell.pen }
+      | _ => row.get end_
+    ⟨fun k =>
+      let cell := row.get k
       if k = end_ then endcell
-      else if end_ + 1 ≤ k ∧ k < spanend then { row k with cols := end_ }
-      else row k
+      else if end_ + 1 ≤ k ∧ k < spanend then { cell with cols := end_ }
+      else cell⟩
   else row
 
 /-- Does the first block reach `abort()`? -/
 def splitAfterAborts (ncols : Int) (row : Row) (end_ : Int) : Bool :=
-  if end_ < ncols ∧ (row end_).state = .cont then
-    match (row (row end_).cols).state with
+  if end_ < ncols ∧ (row.get end_).state = .cont then
+    match (row.get (row.get end_).cols).state with
     | .line | .char | .cont => true
     | _ => false
   else false
 
 /-- Second block: "if the initial cell is a CONT, shorten its start". -/
 def shortenBefore (row : Row) (col : Int) : Row :=
-  if (row col).state = .cont then
-    let beforestart := (row col).cols
-    let spancell := row beforestart
+  if (row.get col).state = .cont then
+    let beforestart := (row.get col).cols
+    let spancell := row.get beforestart
     match spancell.state with
     | .skip | .text | .erase => rowSet row beforestart { spancell with cols := col - beforestart }
     | _ => row
   else row
 
 def shortenBeforeAborts (row : Row) (col : Int) : Bool :=
-  if (row col).state = .cont then
-    match (row (row col).cols).state with
+  if (row.get col).state = .cont then
+    match (row.get (row.get col).cols).state with
     | .line | .char | .cont => true
     | _ => false
   else false
@@ -420,8 +426,8 @@ def makeSpanRow (ncols : Int) (row : Row) (col cols : Int) : Row :=
   let end_ := col + cols
   let row1 := splitAfter ncols row end_
   let row2 := shortenBefore row1 col
-  let row3 : Row := fun k => if col ≤ k ∧ k < end_ then contCell (row2 k) col else row2 k
-  rowSet row3 col { row3 col with cols := cols }
+  let row3 : Row := ⟨fun k => let cell := row2.get k; if col ≤ k ∧ k < end_ then contCell cell col else cell⟩
+  rowSet row3 col { row3.get col with cols := cols }
 
 def makeSpanAborts (ncols : Int) (row : Row) (col cols : Int) : Bool :=
   splitAfterAborts ncols row (col + cols) || shortenBeforeAborts (splitAfter ncols row (col + cols)) col
@@ -433,19 +439,19 @@ def makeSpan (rb : RB) (line col cols : Int) : RB :=
 
 /-- Assignments through the pointer returned by `make_span`. -/
 def RB.updCell (rb : RB) (line col : Int) (f : Cell → Cell) : RB :=
-  rb.setRow line (rowSet (rb.cells line) col (f (rb.cells line col)))
+  rb.setRow line (rowSet (rb.cells line) col (f (rb.cell line col)))
 
 /-! ### Mask-aware run placement: `put_string`, `skip`, `erase` -/
 
 /-- `while(cols && linecells[col].maskdepth > -1) { col++; cols--; }`: how many iterations. -/
 def maskedLen (row : Row) : Nat → Int → Nat
   | 0, _ => 0
-  | n + 1, col => if (row col).maskdepth > -1 then maskedLen row n (col + 1) + 1 else 0
+  | n + 1, col => if (row.get col).maskdepth > -1 then maskedLen row n (col + 1) + 1 else 0
 
 /-- `while(cols && linecells[col + spanlen].maskdepth == -1) { spanlen++; cols--; }`: `spanlen`. -/
 def unmaskedLen (row : Row) : Nat → Int → Nat
   | 0, _ => 0
-  | n + 1, col => if (row col).maskdepth = -1 then unmaskedLen row n (col + 1) + 1 else 0
+  | n + 1, col => if (row.get col).maskdepth = -1 then unmaskedLen row n (col + 1) + 1 else 0
 
 /-- The `while(cols)` loop shared by `put_string`, `skip` and `erase`.  `fill cell startcol` is the block of
     assignments after `make_span` (`startcol` is only used by `put_string`). -/
@@ -506,7 +512,7 @@ def putChar (rb : RB) (line col : Int) (codepoint : Int) : RB :=
   match xlateAndClip rb line col 1 with
   | none => rb
   | some r =>
-    if (rb.cells r.line r.col).maskdepth > -1 then rb
+    if (rb.cell r.line r.col).maskdepth > -1 then rb
     else (makeSpan rb r.line r.col r.cols).updCell r.line r.col
            (fun c => { c with state := .char, pen := rb.pen, cp := codepoint })
 
@@ -515,13 +521,13 @@ def linecell (rb : RB) (line col : Int) (bits : Nat) : RB :=
   match xlateAndClip rb line col 1 with
   | none => rb
   | some r =>
-    if (rb.cells r.line r.col).maskdepth > -1 then rb
+    if (rb.cell r.line r.col).maskdepth > -1 then rb
     else
       let rb1 :=
-        if (rb.cells r.line r.col).state ≠ .line then
+        if (rb.cell r.line r.col).state ≠ .line then
           (makeSpan rb r.line r.col r.cols).updCell r.line r.col
             (fun c => { c with state := .line, cols := 1, pen := rb.pen, lmask := 0 })
-        else if !Pen.equiv (rb.cells r.line r.col).pen rb.pen then
+        else if !Pen.equiv (rb.cell r.line r.col).pen rb.pen then
           rb.updCell r.line r.col (fun c => { c with pen := rb.pen })
         else rb
       rb1.updCell r.line r.col (fun c => { c with lmask := c.lmask ||| bits })
@@ -548,10 +554,11 @@ def maskHole (rb : RB) (mask : Rect) : Rect :=
 /-- `tickit_renderbuffer_mask`. -/
 def mask (rb : RB) (m : Rect) : RB :=
   let hole := maskHole rb m
-  { rb with cells := fun l c =>
+  { rb with cells := fun l => ⟨fun c =>
+      let cell := rb.cell l c
       if hole.top ≤ l ∧ l < hole.bottom ∧ l < rb.lines ∧ hole.left ≤ c ∧ c < hole.right ∧ c < rb.cols ∧
-         (rb.cells l c).maskdepth = -1
-      then { rb.cells l c with maskdepth := rb.depth } else rb.cells l c }
+         cell.maskdepth = -1
+      then { cell with maskdepth := rb.depth } else cell⟩ }
 
 /-- `tickit_renderbuffer_goto`. -/
 def goto (rb : RB) (line col : Int) : RB := { rb with vcSet := true, vcLine := line, vcCol := col }
@@ -572,11 +579,12 @@ def setpen (rb : RB) (pen : Option Pen) : RB :=
 /-- `tickit_renderbuffer_reset`. -/
 def reset (rb : RB) : RB :=
   { rb with
-    cells := fun l c =>
+    cells := fun l => ⟨fun c =>
+      let cell := rb.cell l c
       if 0 ≤ l ∧ l < rb.lines ∧ 0 ≤ c ∧ c < rb.cols then
-        if c = 0 then { contCell (rb.cells l c) 0 with state := .skip, maskdepth := -1, cols := rb.cols }
-        else contCell (rb.cells l c) 0
-      else rb.cells l c
+        if c = 0 then { contCell cell 0 with state := .skip, maskdepth := -1, cols := rb.cols }
+        else contCell cell 0
+      else cell⟩
     vcSet := false
     xlLine := 0, xlCol := 0
     clip := ⟨0, 0, rb.lines, rb.cols⟩
@@ -607,9 +615,10 @@ def restore (rb : RB) : RB :=
     let depth := rb.depth - 1
     { rb1 with
       stack := prev, pen := f.pen, depth := depth
-      cells := fun l c =>
-        if 0 ≤ l ∧ l < rb.lines ∧ 0 ≤ c ∧ c < rb.cols ∧ (rb.cells l c).maskdepth > depth
-        then { rb.cells l c with maskdepth := -1 } else rb.cells l c }
+      cells := fun l => ⟨fun c =>
+        let cell := rb.cell l c
+        if 0 ≤ l ∧ l < rb.lines ∧ 0 ≤ c ∧ c < rb.cols ∧ cell.maskdepth > depth
+        then { cell with maskdepth := -1 } else cell⟩ }
 
 /-- `for(line = from; line < to; line++) f(rb, line)`. -/
 def forLines (f : RB → Int → RB) (rb : RB) (from_ : Int) : Nat → RB
@@ -708,8 +717,8 @@ def getSpan (rb : RB) (line col : Int) : Option SpanRef :=
   match xlateAndClip rb line col 1 with
   | none => none
   | some r =>
-    let cell := rb.cells r.line r.col
-    if cell.state = .cont then some ⟨rb.cells r.line cell.cols, r.col - cell.cols⟩
+    let cell := rb.cell r.line r.col
+    if cell.state = .cont then some ⟨rb.cell r.line cell.cols, r.col - cell.cols⟩
     else some ⟨cell, 0⟩
 
 /-- `tickit_renderbuffer_get_cell_active`. -/
@@ -769,12 +778,12 @@ def getCursor (rb : RB) : Option (Int × Int) := if rb.vcSet then some (rb.vcLin
 def RB.compact (rb : RB) : RB :=
   let nl := rb.lines.toNat
   let nc := rb.cols.toNat
-  let tab : Array (Array Cell) := Array.ofFn (n := nl) fun l => Array.ofFn (n := nc) fun c => rb.cells l.val c.val
-  { rb with cells := fun l c =>
-      if 0 ≤ l ∧ l.toNat < nl ∧ 0 ≤ c ∧ c.toNat < nc then
+  let tab : Array (Array Cell) := Array.ofFn (n := nl) fun l => Array.ofFn (n := nc) fun c => rb.cell l.val c.val
+  { rb with cells := fun l =>
+      if 0 ≤ l ∧ l.toNat < nl then
         match tab[l.toNat]? with
-        | some row => (row[c.toNat]?).getD default
-        | none => default
-      else default }
+        | some row => ⟨fun c => if 0 ≤ c then (row[c.toNat]?).getD default else default⟩
+        | none => ⟨fun _ => default⟩
+      else ⟨fun _ => default⟩ }
 
 end Tickit.RB
